@@ -9,14 +9,23 @@ EXPLANATION = ('Value-flow normal forms and the loop summary of HMC::step with H
                'H = -logp + 1/2 sum_dim1 p^2 at both ends; accept mask = [H(x,p0) - H(x_L,p_L) - ln U >= 0] (non-strict), U uniform of shape [n_chains]; '
                'positions := mask_where(x, expand(unsqueeze_dim(mask,1)), x_L) as the only store; no tensor op on the slice mixes rows. '
                'Numeric reversibility "up to rounding" and row-wise behaviour of user densities are not decided.')
-FLOORS = {'obligations': 14}   # counted on the reference tree; fewer instantiated obligations is reported, never passed silently
+FLOORS = {'obligations': 22}   # counted on the reference tree; fewer instantiated obligations is reported, never passed silently
 TECHNIQUE = 'value-flow normal form + loop summary (Verlet transfer function) vs specification table; op allow-list (row independence)'
 ULP = 'distributions::BatchedGradientTarget::unnorm_logp_batch'
 HALF = T.div(T.ONE, N(2))
 DENY = ('sum', 'mean', 'matmul', 'transpose', 'flip', 'permute', 'stack_t', 'cat_t', 'swap_dims', 'mean_dim', 'sorted', 'roll', 'dot', 'flatten_t', 'reshape', 'slice', 'slice_assign')
 
 
+def frame_rules(ctx):
+    from .. import frame
+    STEP, NEW, SEED = 'hmc::HMC::step', 'hmc::HMC::new', 'hmc::HMC::set_seed'
+    frame.check_frame(ctx, 'C02', 'hmc::HMC', {'target': {NEW}, 'step_size': {NEW}, 'n_leapfrog': {NEW}, 'positions': {NEW, STEP}, 'last_grad_summands': {NEW, STEP}, 'rng': {NEW, STEP, SEED}},
+                      why='positions, cached gradient and generator change only through the anchored step (and the constructor / seeding API); step size, trajectory length and target are fixed at construction')
+    frame.shadowing(ctx, 'C02', ['hmc::HMC'])
+
+
 def run(ctx):
+    frame_rules(ctx)
     A = 'HMC::step'
     b = ctx.anchor(A, name='step', self_head='hmc::HMC', container='inherent')
     names = ['grad0', 'args', 'loop', 'params', 'v.mom', 'v.pos', 'v.g', 'ret', 'ham_accept', 'select', 'rowwise', 'uniform']
